@@ -246,8 +246,10 @@ impl Run {
         });
 
         if self.args.replay.is_none() {
-            std::fs::create_dir_all(format!("{}/evidence", VERIF_DIR)).ok();
-            let path = format!("{}/evidence/{}.json", VERIF_DIR, self.id);
+            // AQV_EVIDENCE_DIR: exploratory runs (deeper tiers, seeded changes) write elsewhere and leave the committed evidence alone
+            let dir = std::env::var("AQV_EVIDENCE_DIR").unwrap_or_else(|_| format!("{}/evidence", VERIF_DIR));
+            std::fs::create_dir_all(&dir).ok();
+            let path = format!("{}/{}.json", dir, self.id);
             if let Err(e) = std::fs::write(&path, serde_json::to_string_pretty(&evidence).unwrap()) {
                 machinery_failure(&format!("could not write {}: {}", path, e));
             }
